@@ -17,7 +17,8 @@ RULE = ("(a) exhaustive: every byte 0..255 as a one-character input (as str wher
         "re-targetings in one process between alphabets that share a leading prefix (alphabets made for the case, and the predefined DNA/RNA ones), "
         "interleaved with encodes of a few recurring plain strings whose returned arrays the caller then assigns into, "
         "so that what an earlier call leaves behind cannot change a later call; (e) Python lists of 1..5 rows that are already encoded, each row with "
-        "an alphabet of a small group (same letters in another order, or one extending another), handed to as_encoded_array with and without a target. "
+        "an alphabet of a small group (same letters in another order, or one extending another; or the offset encodings for qualities, digits and CIGAR lengths), "
+        "handed to as_encoded_array with and without a target, or wrapped again with EncodedArray(row, target). "
         "Oracle: a Python model of each alphabet (a character is accepted iff its upper-case form, for letters only, is a member). Accepted "
         "input decodes to the upper-cased original row for row with the ragged shape unchanged; rejected input raises EncodingError; "
         "re-targeting yields data whose text equals the source text or raises. "
@@ -28,7 +29,8 @@ ASSUMPTIONS = [
 ]
 REQUIRED_CLASSES = ["byte-exhaustive", "foreign-char", "mixed-case", "ragged-with-empty-row", "pair-retarget", "pair-change_encoding",
                     "view-input", "string-encoding", "retarget-history", "history-prefix-then-beyond", "history-encode-edit-encode-again", "foreign-char-beyond-one-byte",
-                    "list-of-rows-in-several-encodings", "list-of-rows-same-letters-other-order", "list-of-rows-in-one-encoding"]
+                    "list-of-rows-in-several-encodings", "list-of-rows-same-letters-other-order", "list-of-rows-in-one-encoding",
+                    "rows-in-offset-encodings"]
 BOUNDS = {"quick": "(a) complete: 256 bytes x 10 encodings x 2 routes; (b) 1500 strings per alphabet; (c) all 90 ordered pairs x 150 strings; (d) 6000 histories; (e) 1500 row lists",
           "thorough": "(a) complete; (b) 15000 per alphabet; (c) all pairs x 1500 strings; (d) 240000 histories; (e) 15000 row lists"}
 BUDGET_S = {"quick": 150, "thorough": 900}
@@ -40,10 +42,16 @@ ALPHABETS = {
 }
 
 
+NUMERIC_LETTERS = "0123456789:;<=>?@ABCXYZ"      # characters every offset encoding below can hold (code >= 48)
+
+
 def enc_of(name):
     from bionumpy.encodings import alphabet_encoding as ae
     if name.startswith("custom:"):
         return ae.AlphabetEncoding(name[len("custom:"):])
+    if name.startswith("num:"):
+        import bionumpy.encodings as be
+        return {"num:quality": be.QualityEncoding, "num:digit": be.DigitEncoding, "num:cigar": be.CigarEncoding}[name]
     return {"ACGT": ae.ACGTEncoding, "ACTG": ae.ACTGEncoding, "ACGTn": ae.ACGTnEncoding, "ACTGn": ae.ACTGnEncoding, "ACUG": ae.ACUGEncoding,
             "AminoAcid": ae.AminoAcidEncoding, "Bam": ae.BamEncoding, "CigarOp": ae.CigarOpEncoding, "Strand": ae.StrandEncoding,
             "Digit": ae.DigitEncoding}[name]
@@ -54,6 +62,8 @@ def model_upper(ch):
 
 
 def letters_of(name):
+    if name.startswith("num:"):
+        return NUMERIC_LETTERS
     return name[len("custom:"):] if name.startswith("custom:") else ALPHABETS[name]
 
 
@@ -109,6 +119,9 @@ def classify(case):
         cl.append("list-of-rows-in-several-encodings" if nontrivial else "list-of-rows-in-one-encoding")
         if nontrivial and len({frozenset(letters_of(a)) for a in alphas}) < len(alphas):
             cl.append("list-of-rows-same-letters-other-order")
+        if case["rows"][0]["alpha"].startswith("num:"):
+            cl.append("rows-in-offset-encodings")
+            nontrivial = nontrivial or bool(case.get("target") and case["target"] != case["rows"][0]["alpha"])
     elif kind == "labels":
         cl.append("string-encoding")
         nontrivial = any(x not in case["labels"] for x in case["query"])
@@ -258,10 +271,21 @@ def check(case, stats=None):
     if kind == "rowlist":
         # a Python list of rows that are already encoded, each with its own alphabet, handed to as_encoded_array (with or without a target)
         from bionumpy.encoded_array import as_encoded_array
-        arrays = [as_encoded_array(r["text"], enc_of(r["alpha"])) for r in case["rows"]]
-        want = [r["text"].upper() for r in case["rows"]]
+        from bionumpy.encoded_array import change_encoding, EncodedArray
+        numeric = case["rows"][0]["alpha"].startswith("num:")
+        if numeric:     # rows labelled with an offset encoding (quality, digit, CIGAR length): made from plain text by change_encoding
+            arrays = [change_encoding(as_encoded_array(r["text"]), enc_of(r["alpha"])) for r in case["rows"]]
+            want = [r["text"] for r in case["rows"]]
+        else:
+            arrays = [as_encoded_array(r["text"], enc_of(r["alpha"])) for r in case["rows"]]
+            want = [r["text"].upper() for r in case["rows"]]
         try:
-            res = as_encoded_array(arrays, enc_of(case["target"])) if case.get("target") else as_encoded_array(arrays)
+            if case.get("wrap"):
+                # the first row alone, wrapped again with the target encoding
+                res = EncodedArray(arrays[0], enc_of(case["target"]))
+                want = want[:1]
+            else:
+                res = as_encoded_array(arrays, enc_of(case["target"])) if case.get("target") else as_encoded_array(arrays)
         except Exception:
             if stats is not None:
                 stats.raised_allowed["rowlist"] += 1
@@ -348,7 +372,8 @@ def pair_case(draw, src, dst):
     return case
 
 
-ROWLIST_GROUPS = [["ACGT", "ACTG", "ACGTn", "ACTGn", "ACUG"], ["ACGT", "ACTG", "AminoAcid", "Bam"], ["custom:XYZ", "custom:ZYX", "custom:XYZW", "custom:YXZ"]]
+ROWLIST_GROUPS = [["ACGT", "ACTG", "ACGTn", "ACTGn", "ACUG"], ["ACGT", "ACTG", "AminoAcid", "Bam"], ["custom:XYZ", "custom:ZYX", "custom:XYZW", "custom:YXZ"],
+                  ["num:quality", "num:digit", "num:cigar"]]
 
 
 @st.composite
@@ -370,6 +395,8 @@ def rowlist_case(draw):
     case = {"kind": "rowlist", "rows": rows}
     if draw(st.booleans()):
         case["target"] = draw(st.sampled_from(group))
+        if draw(st.integers(0, 3)) == 0 and rows[0]["text"]:
+            case["wrap"] = True
     return case
 
 
